@@ -127,8 +127,16 @@ impl<C: PixelColor> Rec<C> {
         let mut v = vec![];
         let mut pts = area.points();
         let mut n = 0;
+        // a driver may ask the stream how much is left at any time (before, while and after pulling, also
+        // after the end): these calls must not panic
+        let _ = colors.size_hint();
         while n < limit {
-            let Some(c) = colors.next() else { break };
+            let Some(c) = colors.next() else {
+                let _ = colors.size_hint();
+                let _ = colors.next();
+                let _ = colors.size_hint();
+                break;
+            };
             n += 1;
             v.push(c);
             if !failing {
@@ -313,13 +321,22 @@ impl<C: PixelColor> DrawTarget for NullT<C> {
         self.calls += 1;
         let n = area.size.width as u64 * area.size.height as u64;
         let mut k = 0;
-        for _ in colors {
+        let mut it = colors.into_iter();
+        let _ = it.size_hint();
+        while it.next().is_some() {
             self.add(1)?;
             k += 1;
             if k > n + 1_000_000 {
                 return Err(Fault(usize::MAX - 1));
             }
+            if k % 7 == 3 {
+                let _ = it.size_hint();
+            }
         }
+        // asked again after the end, as a chunked (DMA style) driver does
+        let _ = it.size_hint();
+        let _ = it.next();
+        let _ = it.size_hint();
         Ok(())
     }
     fn fill_solid(&mut self, area: &Rectangle, _color: C) -> Result<(), Fault> {
